@@ -418,7 +418,7 @@ func main() {
 	dynTargets := func(sig types.Type) []*node {
 		var out []*node
 		for _, t := range addrTaken {
-			if types.Identical(t.sig, sig) {
+			if types.Identical(t.sig.Underlying(), sig.Underlying()) { // named function types (RegisterService, Handler) included
 				out = append(out, t.n)
 			}
 		}
@@ -664,6 +664,28 @@ func main() {
 			}
 		}
 	}
+	// what package initialisers reach runs at process start, not during a transaction (reported for the coverage
+	// cross-check only)
+	initReach := map[int]bool{}
+	{
+		var q []int
+		for _, n := range b.nodes {
+			if strings.HasSuffix(n.name, ".init") || strings.Contains(n.name, ".var:") {
+				initReach[n.id] = true
+				q = append(q, n.id)
+			}
+		}
+		for len(q) > 0 {
+			c := q[0]
+			q = q[1:]
+			for s := range b.nodes[c].succ {
+				if !initReach[s] {
+					initReach[s] = true
+					q = append(q, s)
+				}
+			}
+		}
+	}
 	// every node of the module graph is emitted, so that the Lean side re-checks the closure of the claimed
 	// reachable set over the whole graph
 	keep := []int{}
@@ -723,7 +745,7 @@ func main() {
 		if len(os.Args) > 4 || (out == "json" && len(os.Args) > 3) { // optional: every declared function with its line range
 			for _, n := range b.nodes {
 				if n.file != "" {
-					fns = append(fns, map[string]interface{}{"name": n.name, "file": n.file, "l0": n.l0, "l1": n.l1, "reachable": reach[n.id]})
+					fns = append(fns, map[string]interface{}{"name": n.name, "file": n.file, "l0": n.l0, "l1": n.l1, "reachable": reach[n.id], "init_reachable": initReach[n.id]})
 				}
 			}
 		}
